@@ -48,11 +48,6 @@ def ip [Add α] [Mul α] [Zero α] [HasConj α] (n : Nat) (u w : V α) : α :=
 def bp [Add α] [Mul α] [Zero α] (n : Nat) (u w : V α) : α :=
   sumTo n (fun i => u i * w i)
 
-/-- materialise the first `n` entries (keeps execution polynomial); equal to `f` (theorem `memo_eq`) -/
-def memo (n : Nat) (f : V α) : V α :=
-  let a := Array.ofFn (n := n) (fun i => f i.val)
-  fun i => if h : i < a.size then a[i] else f i
-
 def vconj [HasConj α] (x : V α) : V α := fun i => conj (x i)
 def vadd [Add α] (x y : V α) : V α := fun i => x i + y i
 def vsub [Sub α] (x y : V α) : V α := fun i => x i - y i
@@ -77,9 +72,6 @@ structure Op (α : Type) where
 
 namespace Op
 variable {α : Type}
-
-def memo (A : Op α) : Op α :=
-  { A with eval := fun x => Scico.Adjoint.memo A.nout (A.eval x), adj := fun y => Scico.Adjoint.memo A.nin (A.adj y) }
 
 /-- `x ↦ M x` for a matrix with `n` columns -/
 def _root_.Scico.Adjoint.mulVec [Add α] [Mul α] [Zero α] (n : Nat) (M : Nat → Nat → α) : V α → V α :=
@@ -355,21 +347,21 @@ variable {α : Type} [Add α] [Sub α] [Mul α] [Div α] [Neg α] [Zero α] [One
 /-- the closures scico builds for a derivation tree -/
 def run (env : Nat → Op α) : Expr α → Op α
   | .leaf i => env i
-  | .add a b => (Op.add (run env a) (run env b)).memo
-  | .sub a b => (Op.sub (run env a) (run env b)).memo
-  | .neg a => (Op.neg (run env a)).memo
-  | .smul c a => (Op.smul c (run env a)).memo
-  | .sdiv c a => (Op.sdiv c (run env a)).memo
-  | .comp a b => (Op.comp (run env a) (run env b)).memo
-  | .tr cplx a => (Op.tr cplx (run env a)).memo
-  | .herm a => (Op.herm (run env a)).memo
-  | .cj a => (Op.cj (run env a)).memo
-  | .gram a => (Op.gram (run env a)).memo
+  | .add a b => Op.add (run env a) (run env b)
+  | .sub a b => Op.sub (run env a) (run env b)
+  | .neg a => Op.neg (run env a)
+  | .smul c a => Op.smul c (run env a)
+  | .sdiv c a => Op.sdiv c (run env a)
+  | .comp a b => Op.comp (run env a) (run env b)
+  | .tr cplx a => Op.tr cplx (run env a)
+  | .herm a => Op.herm (run env a)
+  | .cj a => Op.cj (run env a)
+  | .gram a => Op.gram (run env a)
   | .vnil n => Op.vnil n
-  | .vcons a s => (Op.vcons (run env a) (run env s)).memo
+  | .vcons a s => Op.vcons (run env a) (run env s)
   | .dnil => Op.dnil
-  | .dcons a s => (Op.dcons (run env a) (run env s)).memo
-  | .drep k Qi Qo a => (Op.drep k Qi Qo (run env a)).memo
+  | .dcons a s => Op.dcons (run env a) (run env s)
+  | .drep k Qi Qo a => Op.drep k Qi Qo (run env a)
 
 /-- the shape checks scico performs when the tree is built (`_wrap_add_sub`, `ComposedLinearOperator.__init__`,
     `check_if_stackable`, `DiagonalReplicated.__init__`) -/
